@@ -381,7 +381,9 @@ func (p IndexVectorVamanaParameters) Validate() error {
 	if p.DegreeBound < 32 || p.DegreeBound > 64 {
 		return fmt.Errorf("degree bound must be between 32 and 64, got %d", p.DegreeBound)
 	}
-	if p.Alpha < 1.1 || p.Alpha > 1.5 {
+	// (written so that not-a-number, which a MessagePack body can carry and
+	// which compares false with everything, is refused as well)
+	if !(p.Alpha >= 1.1 && p.Alpha <= 1.5) {
 		return fmt.Errorf("alpha must be between 1.1 and 1.5, got %f", p.Alpha)
 	}
 	if p.Quantizer != nil {
